@@ -18,9 +18,9 @@ PROP = {
                   "conservation invariant over ALL schedules of forwarding tasks, port/connection ends and recv calls gives: per sender, "
                   "received ++ queued ++ still-to-come = what its base receiver yields, so received values are a per-sender prefix of the "
                   "successful sends and a non-final error never costs a neighbour; the end of the channel is reported only when nothing can "
-                  "follow. rch::lr (= base on its own port) and rch::oneshot (= mpsc, buffer 1, one send) are corollaries. The full statement "
-                  "is REFUTED on the current code for one decidable class (finding F15, witness by vm_compute, reproduced on the real code) and "
-                  "proved for everything outside it. Tie: differential run of the real base/lr/mpsc/oneshot channels over a real two-endpoint "
+                  "follow. rch::lr (= base on its own port) and rch::oneshot (= mpsc, buffer 1, one send) are corollaries. The statement "
+                  "holds for ALL item attempts since the repair of finding F15 (the feed loop skips to the end of the message when the "
+                  "deserializer has ended early); its former witnesses are positive examples (vm_compute) and corpus cases. Tie: differential run of the real base/lr/mpsc/oneshot channels over a real two-endpoint "
                   "connection against the extracted model, number by number, plus an independent trace oracle.",
     "level_note": "Trusted: Coq kernel (+vm_compute), extraction (ExtrOcamlBasic only) and mrun glue (sample re-checked in-kernel), harness, its "
                   "transport and its quiescence barrier (paused clock; while (de)serializer threads are outstanding: all other threads asleep and "
@@ -37,8 +37,8 @@ PROP = {
     "rule": "cases from one PRNG (VERIF_SEED), 20 slots: 7 base channel with nothing blocking (sends and receives interleaved, a pending recv is "
             "dropped and repeated), 4 base channel with receive buffer 64..200 and an idle receiver (sends run out of credit and are cancelled, "
             "credit arithmetic in the model), 4 mpsc with 1-3 remote senders (bursts per sender, drops of senders, rejection after a failure), "
-            "2 lr, 1 oneshot (fresh channel per item), 1 mpsc with concurrent senders and a local buffer of 1-2 (oracle only), 1 F15 stream "
-            "(known finding, own signature prefix); Cfg: max_data_size of sender and receiver drawn independently from 8..1000, chunk size "
+            "2 lr, 1 oneshot (fresh channel per item), 1 mpsc with concurrent senders and a local buffer of 1-2 (oracle only), 1 stream of unfinished "
+            "messages that carry a complete encoding with a repeated recv (the former finding F15; also 1 in 4 x 1/(plen+1) elsewhere); Cfg: max_data_size of sender and receiver drawn independently from 8..1000, chunk size "
             "4..64, max_item_size on either side 10..150 or large; payload sizes around every limit (+-1), chunk multiples, 0..260; Serialize "
             "failing after k payload bytes (1 in 4), undecodable values (1 in 10), a channel half inside the value (1 in 6, kept clear of the "
             "limits by the 4 bytes its random port number may vary); every op is followed by the quiescence barrier; compared exactly: send "
@@ -46,6 +46,5 @@ PROP = {
             "unparsable; distinct = distinct input",
     "assumptions": [
         "receive buffers >= 64 and at most one channel half per value (keeps clear of the repaired F3 class; C05 is about halves)",
-        "known finding F15 (own signature prefix F15:) is reported as KNOWN-FINDING, not as a violation",
     ],
 }
